@@ -131,12 +131,7 @@ func ex6Scenario() *Scenario {
 		if st.stall {
 			s.StallPermille = 10
 		}
-		switch t.Weighted(3, 2, 1) {
-		case 1:
-			s.SwitchNum, s.SwitchDen = 1, 2
-		case 2:
-			s.SwitchNum, s.SwitchDen = 1, 20
-		}
+		s.Probe("policy-" + pickPolicy(s))
 		st.start()
 		return func(res simrt.RunResult) []simrt.Violation {
 			v := &vio{}
